@@ -19,6 +19,7 @@ fn by_size(leaves: &[Regex], max: usize, extended: bool) -> Vec<Vec<Regex>> {
         t[1] = leaves.to_vec();
         if extended {
             t[1].push(Regex::Paren(None));
+            t[1].push(Regex::Pred(Some(1)));
         }
     }
     for s in 2..=max {
